@@ -15,6 +15,6 @@ CONSTANTS
   Offs = {0, 1, 2, 10, 12, 201}
   MaxBasePay = 2
   BaseOffs = {0, 1, 12}
-  SubstChars = {"_", "p", "d", "j", "l", "0", "1", "2", ":", "-", "x"}
+  SubstChars = {"_", ":", "0", "1", "2", "-", "x", "p"}
 INVARIANTS Total RoundTrip Canonical
 CHECK_DEADLOCK FALSE
